@@ -2,6 +2,8 @@ package main
 
 import (
 	"fmt"
+	"io"
+	"log"
 	"os"
 	"runtime"
 	"strconv"
@@ -37,6 +39,7 @@ func envInt(name string, def int) int {
 }
 
 func main() {
+	log.SetOutput(io.Discard) // loader.go prints debug lines on refused assignments
 	if len(os.Args) < 3 {
 		fmt.Fprintln(os.Stderr, "usage: harness c12|c13 <out-file>   (VERIF_SEED, VERIF_CASES, VERIF_REPLAY)")
 		os.Exit(2)
